@@ -103,10 +103,11 @@ func init() {
 		}
 		for i := 0; i < n; i++ {
 			r := rng.Fork()
-			walkCase(o, r, "C08", docOpts{collisions: false, abstract: true, maxDepth: 4, fewDirs: true}, nil)
+			walkCase(o, r, "C08", docOpts{collisions: false, abstract: true, maxDepth: 4, fewDirs: true, nestedFrags: r.Chance(40)}, nil)
 		}
 		for i := 0; i < n/2; i++ {
 			c08Binding(o, rng.Fork())
 		}
+		c08Late(o)
 	}
 }
